@@ -1,7 +1,8 @@
 import sys,os
 sys.path.insert(0,os.path.dirname(os.path.dirname(os.path.abspath(__file__))))
 from jobs_lib import vf,blk,other
+from vlib.runner import Job
 def jobs(tier):
-    return vf(tier,'C13')+other('C02',tier,lambda j:j.name in('P-book','P-res','S-init-retry'))+other('C16',tier,lambda j:j.name.startswith('cm-unpack') or j.name.startswith('cm-rt-n2'))
+    return vf(tier,'C13')+other('C02',tier,lambda j:j.name in('P-book','P-res','S-init-retry'))+other('C16',tier,lambda j:j.name.startswith('cm-unpack') or j.name.startswith('cm-rt-n2'))+[Job('L-floor0','C13/floor0_lookfree.c',unwind=34,checks=['leak'],witnesses=['both maps built','long map only'],functions=['floor0_look','floor0_free_look','floor0_free_info'],models=[],bounds='every subset of the two bark maps')]
 CLAIM={'text':'CBMC memory-leak and double-free obligations (--memory-leak-check + free preconditions) on constructor/destructor pairs and every error exit of: codebook and residue header parsers, comment unpack/clear, decoder init retry + info/dsp clear, vorbisfile open/clear incl. the close-callback counter.',
  'note':'Trusted: CBMC allocator model. Not yet covered: encoder set-up leak freedom with the real templates (finding D12, 5.1 residue slot, is recorded from the design-phase hand reproduction only), vorbis_analysis_headerout, block allocator chain, _bisect_forward_serialno error exits.'}
